@@ -20,17 +20,19 @@ structure PS (A Q : Type) where
   b : Option Nat
   lag : List (Ev A Q)
   aLeads : Bool
-  deriving DecidableEq, Repr
+  deriving DecidableEq, Repr, Hashable
+
+instance : Inhabited (PS A Q) := ⟨⟨none, none, [], false⟩⟩
 
 /-- The trailing side performs the lag first; result: what is left of its tree. -/
-def sync : List (Ev A Q) → Tree A Q → Option (Tree A Q)
+def sync : List (Ev A Q) → Tree A Q Leaf → Option (Tree A Q Leaf)
   | [], t => some t
   | .act a' :: es, .emit a k => if a' = a then sync es k else none
   | .asked q' v :: es, .ask q kt kf => if q' = q then sync es (if v then kt else kf) else none
   | _ :: _, _ => none
 
 /-- Joint walk of two trees from a common history. -/
-def joint : Tree A Q → Tree A Q → Option (List (PS A Q))
+def joint : Tree A Q Leaf → Tree A Q Leaf → Option (List (PS A Q))
   | .emit a k, .emit a' k' => if a = a' then joint k k' else none
   | .ask q kt kf, .ask q' kt' kf' =>
       if q = q' then
